@@ -46,6 +46,87 @@ pub mod arrayvec {
         pub fn clear(&mut self)
             ensures final(self)@ == Seq::<T>::empty(),
         { unimplemented!() }
+        // Further methods of arrayvec 0.7 (documented behaviour), so that an implementation
+        // that uses them is still within the verifier's reach.
+        #[verifier::external_body]
+        pub fn is_empty(&self) -> (r: bool)
+            ensures r == (self@.len() == 0),
+        { unimplemented!() }
+        #[verifier::external_body]
+        pub fn is_full(&self) -> (r: bool)
+            ensures r == (self@.len() == CAP),
+        { unimplemented!() }
+        #[verifier::external_body]
+        pub fn capacity(&self) -> (r: usize)
+            ensures r == CAP,
+        { unimplemented!() }
+        #[verifier::external_body]
+        pub fn remaining_capacity(&self) -> (r: usize)
+            ensures r == CAP - self@.len(),
+        { unimplemented!() }
+        /// Panics when full: the precondition makes that panic an obligation.
+        #[verifier::external_body]
+        pub fn push(&mut self, e: T)
+            requires old(self)@.len() < CAP,
+            ensures final(self)@ == old(self)@.push(e),
+        { unimplemented!() }
+        /// Panics when out of bounds.
+        #[verifier::external_body]
+        pub fn remove(&mut self, i: usize) -> (r: T)
+            requires i < old(self)@.len(),
+            ensures r == old(self)@[i as int], final(self)@ == old(self)@.remove(i as int),
+        { unimplemented!() }
+        /// Panics when out of bounds.
+        #[verifier::external_body]
+        pub fn swap_remove(&mut self, i: usize) -> (r: T)
+            requires i < old(self)@.len(),
+            ensures r == old(self)@[i as int],
+                final(self)@ == old(self)@.update(i as int, old(self)@.last()).drop_last(),
+        { unimplemented!() }
+        #[verifier::external_body]
+        pub fn swap_pop(&mut self, i: usize) -> (r: Option<T>)
+            ensures
+                i >= old(self)@.len() ==> r is None && final(self)@ == old(self)@,
+                i < old(self)@.len() ==> r == Some(old(self)@[i as int])
+                    && final(self)@ == old(self)@.update(i as int, old(self)@.last()).drop_last(),
+        { unimplemented!() }
+        #[verifier::external_body]
+        pub fn truncate(&mut self, n: usize)
+            ensures
+                n >= old(self)@.len() ==> final(self)@ == old(self)@,
+                n < old(self)@.len() ==> final(self)@ == old(self)@.subrange(0, n as int),
+        { unimplemented!() }
+        /// Panics when full or out of bounds.
+        #[verifier::external_body]
+        pub fn insert(&mut self, i: usize, e: T)
+            requires old(self)@.len() < CAP, i <= old(self)@.len(),
+            ensures final(self)@ == old(self)@.insert(i as int, e),
+        { unimplemented!() }
+        #[verifier::external_body]
+        pub fn try_insert(&mut self, i: usize, e: T) -> (r: Result<(), CapacityError<T>>)
+            requires i <= old(self)@.len(),
+            ensures
+                old(self)@.len() < CAP ==> r is Ok && final(self)@ == old(self)@.insert(i as int, e),
+                old(self)@.len() >= CAP ==> r is Err && final(self)@ == old(self)@,
+        { unimplemented!() }
+        #[verifier::external_body]
+        pub fn last(&self) -> (r: Option<&T>)
+            ensures
+                self@.len() == 0 ==> r is None,
+                self@.len() > 0 ==> r == Some(&self@.last()),
+        { unimplemented!() }
+        #[verifier::external_body]
+        pub fn first(&self) -> (r: Option<&T>)
+            ensures
+                self@.len() == 0 ==> r is None,
+                self@.len() > 0 ==> r == Some(&self@[0]),
+        { unimplemented!() }
+        #[verifier::external_body]
+        pub fn get(&self, i: usize) -> (r: Option<&T>)
+            ensures
+                i >= self@.len() ==> r is None,
+                i < self@.len() ==> r == Some(&self@[i as int]),
+        { unimplemented!() }
     }
 }
 
